@@ -8,16 +8,19 @@ package afpacket
 // interface asked for (C17) and the capture filter installed is the compilation of the given text for the link
 // type of the mode (C03), instruction by instruction.
 //@ func (*Source).WritePacketData
+//@   sig s, pkt
 //@   props C07 C05 C01 C11 C13 C15 C16 C19 C12
 //@   observe WritePacketData
 //@   entry row write: [call WritePacketData(s.handle, pkt) as (e)] when ret == e -> exit
 
 //@ func (*Source).ReadPacketData
+//@   sig s
 //@   props C20 C06 C03 C16 C12 C11
 //@   observe ZeroCopyReadPacketData
 //@   entry row read: [call ZeroCopyReadPacketData(s.handle) as (d, ci, e)] when ret0 == d && ret2 == e && ret1 != nil -> exit
 
 //@ func NewPacketSource
+//@   sig iface, vpnMode
 //@   props C17 C03 C01 C05 C07 C11 C13 C15 C16 C19 C12 C02
 //@   observe NewTPacket
 //@   entry row fail: [call NewTPacket(bind_o) as (h, e)] when e != nil && ret0 == nil && ret1 == e
@@ -27,6 +30,7 @@ package afpacket
 //@                      && ((vpnMode && ret0.linkType == layers.LinkTypeIPv4) || (!vpnMode && ret0.linkType == layers.LinkTypeEthernet)) -> exit
 
 //@ func (*Source).SetBPFFilter
+//@   sig s, bpfFilter, maxPacketLength
 //@   props C03
 //@   observe pcap.CompileBPFFilter, SetBPF
 //@   entry row bad:  [call pcap.CompileBPFFilter(s.linkType, maxPacketLength, bpfFilter) as (ins, e)] when e != nil && ret == e -> exit
@@ -37,6 +41,7 @@ package afpacket
 //@   loop 0 row set:  [call SetBPF(s.handle, bind_raw) as (e2)] when ret == e2 && len(raw) == len(bpfIns) && (forall k int :: 0 <= k && k < len(raw) ==> raw[k].Op == bpfIns[k].Op && raw[k].K == bpfIns[k].K) -> exit
 
 //@ func (*Source).Close
+//@   sig s
 //@   props C12
 //@   observe Close
 //@   entry row close: [call Close(s.handle)] -> exit
